@@ -36,3 +36,38 @@ def d16_to_directed_one_orientation():
     g.add_interaction(0, 3, 0)
     h = g.to_directed()
     return h.has_interaction(0, 3, 0) != h.has_interaction(3, 0, 0)
+
+
+@script
+def d06_directed_interactions_drop_backward():
+    g = dn.DynDiGraph()
+    g.add_interaction(0, 2, 3)
+    g.add_interaction(1, 2, 1)
+    g.add_interaction(2, 0, 3)
+    got = {(u, v) for u, v, _ in g.interactions(t=3)}
+    return got != {(0, 2), (2, 0)}
+
+
+@script
+def d07_selfloop_halving():
+    g = dn.DynGraph()
+    g.add_interaction(0, 0, 0)
+    g.add_interaction(0, 1, 0)
+    return g.degree(0, t=0) != 3 or g.size(t=0) != 2 or g.number_of_interactions(t=0) != 2
+
+
+@script
+def d08_density_at_t():
+    g = dn.DynGraph()
+    g.add_interaction(0, 1, 2)
+    return dn.density(g, t=2) != 1.0
+
+
+@script
+def d09_non_interactions_directed():
+    g = dn.DynDiGraph()
+    g.add_interaction(1, 0, 0)
+    g.add_interaction(1, 2, 5)
+    got = {frozenset(p) for p in dn.non_interactions(g, 0)}
+    # at t=0 only 1->0 is present: {0,2} and {1,2} do not interact
+    return got != {frozenset((0, 2)), frozenset((1, 2))}
